@@ -136,7 +136,7 @@ fn c14_typeinfo_all_words() {
     }
 }
 
-fn ref_message_type(b: u8) -> MessageType {
+pub(crate) fn ref_message_type(b: u8) -> MessageType {
     let mstp = (b >> 1) & 7;
     let mtin = b >> 4;
     match mstp {
